@@ -21,6 +21,7 @@ EXPLANATION = (
     "stateful selector is consulted only until its first acceptance.  R07.7: a from-import is identified by (module_name, level): "
     "module_name equality between two infos is always paired with level equality, and a rebuilt FromImport keeps the level of its source.  R07.8: `import a.b` is covered by `import a` only on a dotted prefix that ends in the dot.  R07.9: the resource the self-import visitor compares with is its constructor argument, unchanged.  R07.10: relative module lookup climbs (level - 1) packages on every path.  R07.11: merging from-imports decides 'already imported' on (name, alias) pairs.  R07.12: the local unbound-name finder tells global declarations from local bindings.  R07.13: the import rewriter cuts the source into lines at '\\n' only.  Idempotence, re-emitted text and sort keys "
     "are not decided."
+    ' R07.15: the self-import rewrite is refused as soon as ANY character between the name and the next dot is foreign.'
 )
 ASSUMPTIONS = ["scope-opening constructors without a handler in the finder (async def, lambda, comprehensions) only make more names count as used: conservative, not armed"]
 
